@@ -37,6 +37,13 @@ def run(tier, seed):
     H, D = (4, 1) if tier == "quick" else (5, 2)
     its = items(tier)
     col = stepcheck.explore(its, MONS, H, D, seed=seed)
+    # the same invariants on runs continued after a stop at step k (state and logs kept) and on second runs of one object
+    ri = []
+    for sp, o in its[:: (5 if tier == "quick" else 2)]:
+        for k in (1, 2):
+            ri.append((sp, dict(o, resume_from=k)))
+        ri.append((sp, dict(o, presim=1)))
+    col.merge(stepcheck.explore(ri, MONS, 0, 0, seed=seed))
     meta = {
         "level": "model_checking",
         "rule": "3-task FS/SS(/FF) workflows and 4 parallel tasks x worker layouts (one/two pooled, mixed, solo, fixed-ID lists incl. empty) x task rules "
